@@ -10,10 +10,13 @@ open Spec
 
 /-- the nested store fiano finds in the parsed entry of a row whose content is the store `n` -/
 theorem nestedOf_nested (pol : Nat) (guids : List Bytes) (r : Row) (n : NStore) (hn : WFParts n.flat)
-    (hpol : n.pol = pol) (hc : r.entry.content = n.ser) (hnd : ∀ a nx b, r.entry ≠ .dead a nx b) :
+    (hpol : n.pol = pol) (hc : r.entry.content = n.ser) (hnd : ∀ a nx b, r.entry ≠ .dead a nx b)
+    (k : Nat) (hok : r.entry.ok k = true) (hx : r.entry.ext = none) :
     nestedOf pol (expectNVar pol guids r) = if n.entries = [] then none else some (expectStore n.flat) := by
   unfold nestedOf
-  rw [content_expect_nd pol guids r hnd, hc]
+  have hxb : hasBit (expectNVar pol guids r).attrs aExtHdr = false := by
+    rw [expect_attrs, entry_extbit r.entry k hok hnd, hx]; rfl
+  rw [content_expect_nd pol guids r hnd, hc, hxb]
   have hhc : (expectNVar pol guids r).hasContent = true := by
     rw [expect_hasContent]
     cases he : r.entry with
@@ -50,9 +53,10 @@ theorem nestedOf_row (S : NStore) (hl : LevelOk S) (r : Row) (hr : r ∈ table S
   cases valCase_of_level S hl r.entry hE with
   | plain hp => rw [nestedOf_expect S.pol S.guids r hp] at h; cases h
   | refused ho => rw [nestedOf_opaque S.pol S.guids r ho] at h; cases h
+  | exthdr hx hnd => rw [nestedOf_exthdr S.pol S.guids r _ (hl.parts.ok r.entry hE) hnd hx] at h; cases h
   | nested n hn hc hv hx hpol hnd =>
     have hwn := wfN_level n (hl.subs n hn)
-    rw [nestedOf_nested S.pol S.guids r n hwn.parts hpol hc hnd] at h
+    rw [nestedOf_nested S.pol S.guids r n hwn.parts hpol hc hnd _ (hl.parts.ok r.entry hE) hx] at h
     by_cases hes : n.entries = []
     · simp [hes] at h
     · simp only [hes, if_false, Option.some.injEq] at h
@@ -88,7 +92,8 @@ theorem nested_of_rows (S : NStore) (h : WFN S) (r : Row) (hr : r ∈ table S.fl
     (∀ ns, nestedOf S.pol (expectNVar S.pol S.guids r) = some ns →
       ∃ n ∈ S.subs, ns = expectStore n.flat ∧ r.entry.content = n.ser) ∧
     (∀ n ∈ S.subs, r.entry.content = n.ser → (∀ a nx b, r.entry ≠ .dead a nx b) →
-      nestedOf S.pol (expectNVar S.pol S.guids r) = if n.entries = [] then none else some (expectStore n.flat)) := by
+      nestedOf S.pol (expectNVar S.pol S.guids r) =
+        if n.entries = [] ∨ r.entry.ext.isSome = true then none else some (expectStore n.flat)) := by
   have hl := wfN_level S h
   constructor
   · intro ns hns
@@ -126,7 +131,9 @@ theorem nested_of_rows (S : NStore) (h : WFN S) (r : Row) (hr : r ∈ table S.fl
       rw [nestedOf_opaque S.pol S.guids r ho]
       by_cases hes : n.entries = []
       · simp [hes]
-      · exfalso
+      · by_cases hxs : r.entry.ext.isSome = true
+        · simp [hxs]
+        exfalso
         have hps := parseStore_ser_parts n.flat hwn
         rw [flat_pol, hpolN] at hps
         rw [hc] at ho
@@ -139,7 +146,9 @@ theorem nested_of_rows (S : NStore) (h : WFN S) (r : Row) (hr : r ∈ table S.fl
       rw [nestedOf_expect S.pol S.guids r hp]
       by_cases hes : n.entries = []
       · simp [hes]
-      · exfalso
+      · by_cases hxs : r.entry.ext.isSome = true
+        · simp [hxs]
+        exfalso
         obtain ⟨e, es, hes'⟩ : ∃ e es, n.entries = e :: es := by
           cases h' : n.entries with
           | nil => exact absurd h' hes
@@ -148,7 +157,10 @@ theorem nested_of_rows (S : NStore) (h : WFN S) (r : Row) (hr : r ∈ table S.fl
         have h4 := ser_take4_nonempty n.flat _ _ hfe
         simp only [Entry.plain, hc, NStore.ser, bne_iff_ne, ne_eq] at hp
         exact hp h4
-    | nested n' hn' hc' _ _ hpol' hnd' =>
+    | exthdr hx _ =>
+      rw [nestedOf_exthdr S.pol S.guids r _ (hl.parts.ok r.entry hE) hnd hx]
+      simp [hx]
+    | nested n' hn' hc' _ hx' hpol' hnd' =>
       have hwn := (wfN_level n (hl.subs n hn)).parts
       have hpol : n.pol = S.pol := by
         -- both stores have the polarity of their parent
@@ -172,6 +184,7 @@ theorem nested_of_rows (S : NStore) (h : WFN S) (r : Row) (hr : r ∈ table S.fl
             subst hs
             simp only [NEntry.valueOk, valueOk, Bool.and_eq_true, beq_iff_eq] at hv
             exact hv.2
-      exact nestedOf_nested S.pol S.guids r n hwn hpol hc hnd
+      rw [nestedOf_nested S.pol S.guids r n hwn hpol hc hnd _ (hl.parts.ok r.entry hE) hx']
+      simp [hx']
 
 end Fiano.Nvram
